@@ -29,12 +29,18 @@
    C20_K6_*_witness: without X-K6 the message theorem is false, for messages that satisfy X-K1;
    C20_k6_update_sharp / C20_k6_enable_sharp say k6_op is the weakest exclusion.  X-K6 in its
    input form rests on C20_supply_step_le (no operation increases the supply) and on the
-   deposits being backed by the supply.  EndBlock needs no exclusion.  Byte-level determinism across processes
+   deposits being backed by the supply.  EndBlock needs no exclusion.
+   The last section (Proofs/AmountBounds.v) is the support for the census reason "safe because
+   backed by the supply": AmountBounds.amounts_below s L (spelled out in C20_amounts_bounded)
+   says that every balance, binding deposit, earned-fee record, fee of an active request,
+   amount of a successful transfer and partial sum of the prices new_one charges is in [0, L);
+   it holds with L = 2^255 in every state reachable from a genesis supply below 2^255,
+   including the states inside EndBlock.  Byte-level determinism across processes
    is outside Gallina (harness double replay); what is expressible is at the end. *)
 From Coq Require Import List ZArith Bool Permutation Sorted.
 From SVC Require Import Base.AMap Base.Res Base.Dec Model.Types Model.Pricing Model.Handlers
   Model.EndBlock Model.Step Proofs.Inv.
-From SVC Require Proofs.NoPanic Proofs.SupplyMono.
+From SVC Require Proofs.NoPanic Proofs.SupplyMono Proofs.AmountBounds.
 Import ListNotations.
 Open Scope Z_scope.
 
@@ -365,3 +371,53 @@ Theorem C20_due_canonical : forall (q q' : list (Z * CtxId)) h,
   Permutation q q' -> due q h = due q' h.
 Proof. exact NoPanic.C20_due_canonical. Qed.
 Print Assumptions C20_due_canonical.
+
+(* ---- amounts are backed by the supply (support for the census) ---- *)
+
+(* AmountBounds.amounts_below s INT_LIMIT, spelled out *)
+Theorem C20_amounts_bounded : forall cfg S0 s,
+  wf_cfg cfg -> SupplyMono.ReachS cfg S0 s -> S0 < INT_LIMIT ->
+  (forall a, 0 <= bal s a < INT_LIMIT)
+  /\ (forall k b, get k (binds s) = Some b -> 0 <= b_deposit b < INT_LIMIT)
+  /\ (forall p, 0 <= get0 p (earned s) < INT_LIMIT)
+  /\ (forall o, 0 <= get0 o (own_earned s) < INT_LIMIT)
+  /\ (forall r q, get r (reqs s) = Some q -> r_active q = true -> 0 <= r_fee q < INT_LIMIT)
+  /\ (forall a b amt x, transfer a b amt s = Some x -> 0 <= amt < INT_LIMIT)
+  /\ (forall c x l1 l2,
+        let rc := ctx_or_zero s c in
+        let el := filter_providers s rc (c_provs rc) in
+        transfer (User (c_cons rc)) Escrow (sum_prices el) s = Some x ->
+        el = l1 ++ l2 ->
+        0 <= sum_prices l1 < INT_LIMIT /\ 0 <= sum_prices l2 < INT_LIMIT
+        /\ 0 <= sum_prices el < INT_LIMIT).
+Proof. exact AmountBounds.C20_amounts_bounded. Qed.
+Print Assumptions C20_amounts_bounded.
+
+Theorem C20_Inv_amounts_below : forall cfg s L,
+  Inv cfg s -> supply s < L -> AmountBounds.amounts_below s L.
+Proof. exact AmountBounds.Inv_amounts_below. Qed.
+Print Assumptions C20_Inv_amounts_below.
+
+(* the states in which EndBlock runs expire_one / new_one for the k-th due context *)
+Theorem C20_amounts_bounded_endblock : forall cfg S0 s,
+  wf_cfg cfg -> SupplyMono.ReachS cfg S0 s -> S0 < INT_LIMIT -> height s < HEIGHT_BOUND ->
+  let s1 := fold_left (expire_one cfg) (due (expq s) (height s)) s in
+  (forall k, AmountBounds.amounts_below
+               (fold_left (expire_one cfg) (firstn k (due (expq s) (height s))) s) INT_LIMIT)
+  /\ (forall k, AmountBounds.amounts_below
+               (fold_left (new_one cfg) (firstn k (due (newq s1) (height s1))) s1) INT_LIMIT).
+Proof. exact AmountBounds.C20_amounts_bounded_endblock. Qed.
+Print Assumptions C20_amounts_bounded_endblock.
+
+(* the states between two expire_req of the loop over one expiring batch *)
+Theorem C20_amounts_bounded_expire_loop : forall cfg S0 s c n l1 l2,
+  wf_cfg cfg -> SupplyMono.ReachS cfg S0 s -> S0 < INT_LIMIT -> active_rids s c n = l1 ++ l2 ->
+  AmountBounds.amounts_below (fold_left (expire_req cfg) l1 s) INT_LIMIT.
+Proof. exact AmountBounds.C20_amounts_bounded_expire_loop. Qed.
+Print Assumptions C20_amounts_bounded_expire_loop.
+
+Theorem C20_Inv_inside_new_phase : forall cfg s,
+  wf_cfg cfg -> Inv cfg s -> height s < HEIGHT_BOUND ->
+  forall k, Inv cfg (fold_left (new_one cfg) (firstn k (due (newq s) (height s))) s).
+Proof. exact AmountBounds.Inv_inside_new_phase. Qed.
+Print Assumptions C20_Inv_inside_new_phase.
